@@ -122,6 +122,7 @@ def db_create_crash(e, name="channel", entry="get"):
                            complete_db(db, name, target) if db is not None else False)
     A["C19.pragmas"] = (db is not None and db.foreign_keys and
                         [p for p in db.pragmas] == [("foreign_keys", "ON"), ("foreign_key_check", None)])
+    A["C09.pragmas"] = A["C19.pragmas"]     # SQLite defaults (rollback journal, synchronous=FULL) are not weakened
     n = len(fs0.events)
     c = e.choose(n, "crash_at")
     fs1 = FS(crash_at=c)
@@ -331,6 +332,12 @@ def db_upgrade(e, rows=2):
     A["C20.restart_completes"] = And(ex2 is None, st2 is not None,
                                      complete_db(st2, "usage", target) if st2 is not None else False,
                                      rows_preserved(orig1, st2.committed, data_tables) if st2 is not None else False)
+    # whenever the upgrade has gone through (now or before the crash), the backup next to the database is
+    # a faithful copy of the old file
+    bk1 = fs1.files.get("%s-backup-v%d" % (PATH, old))
+    A["C20.backup_after_restart"] = (bk1 is not None and bk1.kind == "db" and bk1.store is not None and
+                                     bool_or_term(same_content(orig1, bk1.store.committed)))
+    bk_ok = A["C20.backup_after_restart"]
     kept1, done2 = A["C20.no_record_lost"], A["C20.restart_completes"]
     up0, bk0 = A["C20.upgrades"], A["C20.backup"]
 
@@ -346,10 +353,12 @@ def db_upgrade(e, rows=2):
         if ex2 is None:
             p1["final_schema_ok"] = st2 is not None and catalog_of(st2) == catalog_of(fresh_reference("usage", target))
             p1["final_rows_kept"] = tv(dec, done2)
+            p1["backup_identical_after_restart"] = tv(dec, bk_ok)
         return dict(multi=[
             dict(kind="db", name="usage", entry="get", initial=init, crash_at=None, restart_entry=None,
                  check_backup=True, predicted=p0),
-            dict(kind="db", name="usage", entry="get", initial=init, crash_at=c, restart_entry="get", predicted=p1)])
+            dict(kind="db", name="usage", entry="get", initial=init, crash_at=c, restart_entry="get",
+                 check_backup=True, predicted=p1)])
     return PathResult(A, info=dict(crash_at=c, event=fs0.events[c], exc=type(ex2).__name__ if ex2 else None,
                                    msg=str(ex2)[:80] if ex2 else None), replayer=replayer)
 
